@@ -22,6 +22,11 @@ func runImpl(input string) (string, error) {
 		return "(badinput)", nil
 	}
 	o, err := runScenario(s, false)
+	// the deployment itself occasionally fails (a TASK_RUNNING update processed before the task is in the roster:
+	// C02's finding deploy_running_update_dropped) — before anything of this property happened: one fresh world more
+	for try := 0; err != nil && sim.IsInfra(err) && strings.Contains(err.Error(), "NewEnvironment") && try < 2; try++ {
+		o, err = runScenario(s, false)
+	}
 	if err != nil {
 		if sim.IsInfra(err) {
 			stat.Lock()
